@@ -27,13 +27,13 @@ def run(ctx):
     n = RG.check_toplevel(ctx, led)
     led.require_min("C19.toplevel", n, 60, "module-level / class-level statements classified")
     nf = RG.check_global_writes(ctx, led)
-    led.require_min("C19.globals", nf, 80, "functions in the write census")
+    led.require_min("C19.globals", nf, 50, "functions in the write census")
     npr = RG.check_ambient(ctx, led)
     led.require_min("C19.ambient.control", npr, 20, "print/input calls found in the CLI modules (positive control)")
     nq = RG.check_quantize(ctx, led)
     led.require_min("C19.rounding", nq, 3, "quantize() call sites")
     nfun, nsets = RG.check_hashorder(ctx, led)
-    led.require_min("C19.hashorder", nfun, 80, "functions scanned for set-order flow")
+    led.require_min("C19.hashorder", nfun, 50, "functions scanned for set-order flow")
     # instance state: created fresh in __init__ (abstract interpretation), never a shared table
     for v in (2, 3, 4):
         om = get_model(ctx, v)
